@@ -578,6 +578,8 @@ def replay_h_valid(detail):
         lk = [r[detail['L']['columns'].index('id')] for r in detail['L']['rows'][:1]]
         rk = [r[detail['R']['columns'].index('id')] for r in detail['R']['rows'][:2]]
         crows = [(0, x, y) for x in lk for y in rk if x is not None and y is not None]
+        if detail.get('empty_cand'):
+            crows = []
         cand = pd.DataFrame(crows, columns=['_id', 'l_id', 'r_id'])
         if invalid == 'candset-not-frame':
             cand = crows
@@ -688,6 +690,13 @@ def replay_h_ed(detail):
                 out = f.filter_tables(L, R, 'id', 'id', 'attr', 'attr', show_progress=False)
                 lines.append('filter_tables:\n%s' % out.to_string())
                 seen = set((int(a), int(b)) for a, b in zip(out['l_id'], out['r_id']))
+                if prop == 'C14' and cs['filter'] == 'SizeFilter':
+                    for lk, lv in lrows:
+                        for rk, rv in rrows:
+                            a, b = len(bag.tokenize(lv)), len(bag.tokenize(rv))
+                            if a and b and ((lk, rk) in seen) != (abs(a - b) <= tau):
+                                lines.append('pair %r q-gram counts %d,%d: listed=%r' % ((lk, rk), a, b, (lk, rk) in seen))
+                                bad = True
                 for lk, lv in lrows:
                     for rk, rv in rrows:
                         d = ref.levenshtein(lv, rv)
